@@ -114,7 +114,7 @@ FN_CALLS = {('fb', '_feedback_fn'): 'be._feedback', ('fb', '_should_stop_early_f
 DNA_WRITERS = {'set_proposal_id', 'set_generation_id', '_set_initial_population', 'set_feedback_sequence_number', 'set_fitness'}
 DNA_READERS = {'is_initial_population', 'get_fitness', 'get_feedback_sequence_number'}
 # names that may be called / mentioned without touching modelled state
-PLAIN = {'len', 'int', 'str', 'dict', 'list', 'set', 'bool', 'range', 'zip', 'min', 'max', 'sorted', 'isinstance', 'float', 'tuple', 'super', 'enumerate', 'Trial', 'Measurement', 'RaceConditionError', 'ValueError',
+PLAIN = {'id', 'len', 'int', 'str', 'dict', 'list', 'set', 'bool', 'range', 'zip', 'min', 'max', 'sorted', 'isinstance', 'float', 'tuple', 'super', 'enumerate', 'Trial', 'Measurement', 'RaceConditionError', 'ValueError',
          'StopIteration', 'time', 'datetime', 'logging', 'pg', 'symbolic', 'threading', 'collections', 'make_operation_compatible', '_InMemoryResult',
          'None', 'True', 'False'}
 GLOBAL_VARS = {'_in_memory_results': ('box', 'VRegistry')}
@@ -277,6 +277,7 @@ class Footprint:
     if self.env is None:
       bad('no environment declared for function %s' % qual)
     self.rd, self.wr, self.calls = [], [], []
+    self.fresh = tr.fresh_locals(qual)
 
   def add(self, lst, v):
     if v is not None and v not in lst:
@@ -367,6 +368,9 @@ class Footprint:
         for a in args: self.expr(a)
         return 'val'
       if isinstance(f.value, ast.Call) and isinstance(f.value.func, ast.Name) and f.value.func.id == 'super':
+        return 'val'
+      if isinstance(f.value, ast.Name) and f.value.id in self.fresh and f.value.id not in self.env and f.value.id not in GLOBAL_VARS:
+        for a in args: self.expr(a)      # a method of a container that was created in this very function: touches no shared state
         return 'val'
       bk = self.kind(f.value, load=False)
       if (bk, f.attr) in FN_CALLS:
@@ -476,8 +480,45 @@ class Translator:
   def __init__(self, repo):
     self.src = Source(repo)
     self._summaries = {}
+    self._fresh = {}
     self.progs = []          # per entry: list of act dicts
     self.assumptions = []
+
+  # -- locals that only ever hold a container created in the function itself (`x = set()`, `x = []`, `x = list(...)`) --------
+  def fresh_locals(self, qual):
+    if qual in self._fresh:
+      return self._fresh[qual]
+    fkey, fn = self.src.func(qual)
+    assigned = {}
+    def is_fresh(v):
+      if isinstance(v, (ast.List, ast.Dict, ast.Set, ast.Tuple)):
+        return True
+      return isinstance(v, ast.Call) and isinstance(v.func, ast.Name) and v.func.id in ('set', 'list', 'dict', 'tuple')
+    def targets(t):
+      if isinstance(t, ast.Name): yield t.id
+      elif isinstance(t, (ast.Tuple, ast.List)):
+        for x in t.elts: yield from targets(x)
+      elif isinstance(t, ast.Starred): yield from targets(t.value)
+    for n in ast.walk(fn):
+      if isinstance(n, ast.Assign):
+        for t in n.targets:
+          if isinstance(t, ast.Name):
+            assigned.setdefault(t.id, []).append(is_fresh(n.value))
+          else:
+            for name in targets(t): assigned.setdefault(name, []).append(False)
+      elif isinstance(n, (ast.AugAssign, ast.AnnAssign)):
+        for name in targets(n.target): assigned.setdefault(name, []).append(False)
+      elif isinstance(n, (ast.For, ast.comprehension)):
+        for name in targets(n.target): assigned.setdefault(name, []).append(False)
+      elif isinstance(n, ast.NamedExpr):
+        for name in targets(n.target): assigned.setdefault(name, []).append(False)
+      elif isinstance(n, (ast.With,)):
+        for it in n.items:
+          if it.optional_vars is not None:
+            for name in targets(it.optional_vars): assigned.setdefault(name, []).append(False)
+    params = {a.arg for a in fn.args.args + fn.args.kwonlyargs} | ({fn.args.vararg.arg} if fn.args.vararg else set()) | ({fn.args.kwarg.arg} if fn.args.kwarg else set())
+    self._fresh[qual] = {k for k, v in assigned.items() if v and all(v) and k not in params}
+    return self._fresh[qual]
 
   # -- summaries (functions executed atomically under a lock, e.g. Evolution._evolve) ----------------
   def summary(self, qual):
